@@ -136,6 +136,27 @@ def written_bytes(chunk):
             os.remove(p)
 
 
+def canon_array(x):
+    """VALUE-level form of a NumPy array: the property says arguments and results "compare equal", which does not include the
+    storage dtype. Fixed-width byte/unicode strings are compared as strings (a column sliced from a cached `S5` array and the
+    same column parsed afresh as `S4` hold the same names), integers as int64 values (uint64 beyond that as Python ints),
+    floats as float64 with one NaN and +0.0 for -0.0, booleans as booleans."""
+    k = x.dtype.kind
+    if k in "SU":
+        return ("strs", x.shape, tuple(v.decode("latin-1") if isinstance(v, bytes) else v for v in x.ravel().tolist()))
+    if k == "b":
+        return ("bools", x.shape, np.ascontiguousarray(x).tobytes())
+    if k in "iu":
+        if k == "u" and x.dtype.itemsize == 8 and x.size and int(x.max()) > np.iinfo(np.int64).max:
+            return ("ints", x.shape, tuple(int(v) for v in x.ravel().tolist()))
+        return ("ints", x.shape, np.ascontiguousarray(x, dtype=np.int64).tobytes())
+    if k == "f":
+        a = np.array(x, dtype=np.float64) + 0.0
+        a[np.isnan(a)] = np.nan
+        return ("floats", x.shape, np.ascontiguousarray(a).tobytes())
+    return ("nd", x.dtype.str, x.shape, np.ascontiguousarray(x).tobytes())
+
+
 def snap(x, depth=0, lazy_fields=False, result=False):
     """deep, value-level snapshot of an argument or a result (nested tuples of plain values / bytes)"""
     from bionumpy.encoded_array import EncodedArray, EncodedRaggedArray
@@ -151,7 +172,7 @@ def snap(x, depth=0, lazy_fields=False, result=False):
     if isinstance(x, float):
         return ("f", float(x).hex())
     if isinstance(x, (np.integer, np.floating, np.bool_)):
-        return ("np", x.dtype.str, x.tobytes())
+        return canon_array(np.asarray(x))
     if isinstance(x, EncodedRaggedArray):
         flat = x.ravel()
         return ("eragged", type(x.encoding).__name__ + str(getattr(x.encoding, "_alphabet", "")) if not isinstance(x.encoding, type) else x.encoding.__name__,
@@ -165,7 +186,7 @@ def snap(x, depth=0, lazy_fields=False, result=False):
     if isinstance(x, np.ndarray):
         if x.dtype == object:
             return ("objarr", x.shape, tuple(snap(v, depth + 1, lazy_fields, result) for v in x.ravel().tolist()))
-        return ("nd", x.dtype.str, x.shape, np.ascontiguousarray(x).tobytes())
+        return canon_array(x)
     if _is_lazy(x):
         if lazy_fields or result:
             out = []
